@@ -58,8 +58,11 @@ func runRebCase(c rebCase) (closed int, sig, msg string) {
 		}
 	}()
 	cs := cluster.NewState(&cluster.Node{ID: "local", ProxyAddr: "p", AdminAddr: "a"}, log.NewNopLogger())
+	// the local connections are registered the way the server registers them:
+	// through the real manager (several of them on the same endpoint)
+	mgr := upstream.NewLoadBalancedManager(cs, nil)
 	for i := 0; i < c.Local; i++ {
-		cs.AddLocalEndpoint(fmt.Sprintf("e%d", i%2))
+		mgr.AddConn(&fakeUpstream{name: fmt.Sprintf("u%d", i), ep: fmt.Sprintf("e%d", i%2)})
 	}
 	for i, o := range c.Others {
 		eps := map[string]int{}
@@ -74,7 +77,7 @@ func runRebCase(c rebCase) (closed int, sig, msg string) {
 	if err := conf.Rebalance.Validate(); err != nil {
 		return 0, "config-rejected", err.Error()
 	}
-	srv := upstream.NewServer(upstream.NewLoadBalancedManager(cs, nil), nil, nil, cs, conf, log.NewNopLogger())
+	srv := upstream.NewServer(mgr, nil, nil, cs, conf, log.NewNopLogger())
 	mux := yamux.DefaultConfig()
 	mux.EnableKeepAlive = false
 	mux.LogOutput = io.Discard
